@@ -35,7 +35,8 @@ RULE = (
     "and parity; non-trivial = l>|s| (sum over r has >= 2 terms for some m). "
     "undefined: l<|s| or |m|>l must not raise / give NaN. roundtrip: drawn "
     "sparse or dense coefficient sets (arbitrary junk in the l<|s| slots); "
-    "non-trivial = s!=0, >= 2 modes with different l, some m!=0. interpolate:"
+    "non-trivial = s!=0, >= 2 modes with different l, some m!=0; real-dtype "
+    "real and imaginary parts decomposed separately must add up. interpolate:"
     " drawn 1-3D grids, fields, target shapes, methods; each axis/side probed"
     " outside by 1 ulp .. 10 box lengths; non-trivial = 3D non-cubic grid. "
     "psi4lm: drawn non-cubic dyadic grid, off-node centre, 1-3 radii (scalar/"
